@@ -229,6 +229,84 @@ pub fn check_one(pi: usize, p: &Pos, d: Dialect, name: &str, engine_runs: &Count
     Ok(true)
 }
 
+// ---------------------------------------------------------------------------------------------
+// identifiers whose `Iden::prepare` is GENERATED by #[derive(Iden)] (the derive writes a quoting fast path of its own):
+// container renames and variant renames over the quote characters, with the shapes that select the fast path
+mod derived {
+    use sea_query::Iden;
+    #[derive(Iden)]
+    #[iden = "we\"ird"]
+    pub enum Dq { Table, Id }
+    #[derive(Iden)]
+    #[iden = "we`ird"]
+    pub enum Bt { Table, Id }
+    #[derive(Iden)]
+    #[iden = "we]i[rd"]
+    pub enum Br { Table, Id }
+    #[derive(Iden)]
+    #[iden = "pl ain"]
+    pub enum Sp { Table, #[iden = "i\"d"] Id, Other }
+    #[derive(Iden)]
+    pub enum Vr { Table, #[iden = "a`b"] A, #[iden(rename = "c\"d")] C, Plain }
+    #[derive(Iden)]
+    #[iden = "q\"1"]
+    pub struct UnitDq;
+    #[derive(Iden)]
+    #[iden = "q`1"]
+    pub struct UnitBt;
+    #[derive(Iden)]
+    pub enum Fl { Table, #[iden(flatten)] Inner(Vr), Id }
+}
+
+fn derived_family(rep: &Report) -> u64 {
+    use derived::*;
+    use sea_query::{DynIden, IntoIden};
+    let cases: Vec<(&str, DynIden, &str)> = vec![
+        ("Dq::Table", Dq::Table.into_iden(), "we\"ird"),
+        ("Dq::Id", Dq::Id.into_iden(), "id"),
+        ("Bt::Table", Bt::Table.into_iden(), "we`ird"),
+        ("Br::Table", Br::Table.into_iden(), "we]i[rd"),
+        ("Sp::Table", Sp::Table.into_iden(), "pl ain"),
+        ("Sp::Id", Sp::Id.into_iden(), "i\"d"),
+        ("Sp::Other", Sp::Other.into_iden(), "other"),
+        ("Vr::Table", Vr::Table.into_iden(), "vr"),
+        ("Vr::A", Vr::A.into_iden(), "a`b"),
+        ("Vr::C", Vr::C.into_iden(), "c\"d"),
+        ("Vr::Plain", Vr::Plain.into_iden(), "plain"),
+        ("UnitDq", UnitDq.into_iden(), "q\"1"),
+        ("UnitBt", UnitBt.into_iden(), "q`1"),
+        ("Fl::Inner(Vr::A)", Fl::Inner(Vr::A).into_iden(), "a`b"),
+        ("Fl::Inner(Vr::C)", Fl::Inner(Vr::C).into_iden(), "c\"d"),
+        ("Fl::Id", Fl::Id.into_iden(), "id"),
+    ];
+    let mut n = 0;
+    for (label, iden, want) in &cases {
+        for d in crate::lex::DIALECTS {
+            n += 1;
+            let q = Query::select().column(iden.clone()).from(iden.clone()).to_owned();
+            let sql = match catch(|| match d {
+                Dialect::Mysql => q.to_string(MysqlQueryBuilder),
+                Dialect::Postgres => q.to_string(PostgresQueryBuilder),
+                Dialect::Sqlite => q.to_string(SqliteQueryBuilder),
+            }) {
+                Ok(s) => s,
+                Err(p) => {
+                    rep.raw_failures.inc();
+                    rep.violation(Violation { key: format!("derived-iden|{}|panic|{label}", d.name()), what: format!("{label} on {}: rendering panicked: {p}", d.name()), case: json!({"derived": label, "dialect": d.name()}) });
+                    continue;
+                }
+            };
+            let names: Result<Vec<String>, String> = lex(d, &sql).map(|t| t.iter().filter_map(|t| if let Tok::Ident(s) = &t.tok { Some(s.clone()) } else { None }).collect()).map_err(|e| e.msg);
+            let ok = matches!(&names, Ok(v) if v.len() == 2 && v[0] == *want && v[1] == *want) && lex(d, &sql).map(|t| t.len() == 4).unwrap_or(false);
+            if !ok {
+                rep.raw_failures.inc();
+                rep.violation(Violation { key: format!("derived-iden|{}|does-not-decode-to-name|{label}", d.name()), what: format!("{label} (name {want:?}) on {}: {sql:?} tokenises to identifiers {:?}", d.name(), names), case: json!({"derived": label, "dialect": d.name()}) });
+            }
+        }
+    }
+    n
+}
+
 pub fn run(rep: &Arc<Report>) {
     let n = if rep.thorough() { 5 } else { 3 };
     let poss = positions();
@@ -265,6 +343,8 @@ pub fn run(rep: &Arc<Report>) {
         let ds: Vec<&str> = crate::lex::DIALECTS.iter().filter(|d| marker_skeleton(pi, p, **d).is_some()).map(|d| d.name()).collect();
         live.push(json!({"position": p.name, "dialects": ds}));
     }
+    let dn = derived_family(rep);
+    rep.set("derived_identifier_cases", json!(dn));
     rep.set("alphabet", json!(SIGMA_ID.iter().map(|c| show(&c.to_string())).collect::<Vec<_>>()));
     rep.set("max_len", json!(n));
     rep.set("positions", json!(live));
@@ -283,6 +363,11 @@ pub fn run(rep: &Arc<Report>) {
 }
 
 pub fn replay(case: &serde_json::Value) -> Option<String> {
+    if let Some(label) = case["derived"].as_str() {
+        let rep = Report::new("C04", "quick");
+        derived_family(&rep);
+        return rep.find_violation(&format!("derived-iden|{}|", case["dialect"].as_str().unwrap_or(""))).filter(|v| v.contains(label));
+    }
     let poss = positions();
     let name = case["name"].as_str().unwrap_or("");
     let pos = case["position"].as_str().unwrap_or("");
